@@ -40,6 +40,15 @@ func c09Strata() []stratum {
 			c.PSave, c.PMetaStmt = 20, 10
 		}), 2},
 		{"general", with(func(c *gen.LCfg) { noOrigin(c); c.MinStmts, c.MaxStmts = 2, 5 }), 2},
+		{"wide", with(func(c *gen.LCfg) {
+			// statements that draw from dozens of accounts, several of them in a row
+			noOrigin(c)
+			c.Accounts = manyAccounts(60)
+			c.Assets = []string{"USD"}
+			c.MinStmts, c.MaxStmts, c.Depth, c.Fanout = 2, 4, 1, 30
+			c.PLongSrc, c.PRepeat, c.PWorld, c.PUnbounded, c.PBig, c.PAbsent, c.PNegBal = 85, 10, 3, 3, 0, 5, 0
+			c.PFunded, c.PSendAll, c.PSave, c.PMetaStmt, c.Fanout = 85, 6, 6, 3, 40
+		}), 2},
 		{"meta", with(func(c *gen.LCfg) {
 			noOrigin(c)
 			c.Accounts = []string{"a", "b"}
@@ -102,6 +111,20 @@ func runC09(c *fw.Ctx) {
 				return
 			}
 			pref[k] = o
+		}
+		// how many statements moved funds through 16 or more postings (long sender lists)
+		long := 0
+		for k, prev := 1, 0; k <= n; k++ {
+			if pref[k] == nil || !pref[k].OK() {
+				break
+			}
+			if len(pref[k].Postings)-prev >= 16 {
+				long++
+			}
+			prev = len(pref[k].Postings)
+		}
+		if long >= 2 {
+			c.Count("scripts_with_two_statements_of_16_or_more_postings", 1)
 		}
 		for k := 1; k < n; k++ {
 			first := pref[k]
